@@ -182,16 +182,26 @@ Definition component_claim (self_proto : bytes) (r : registry) (k : key) (sid : 
 Definition component_release (self_proto : bytes) (r : registry) (k : key) (sid : bytes) : registry :=
   fst (reg_step r (ORelease k (mkOwner self_proto sid k))).
 
+(* the repaired pppoe call site (fixes/C17_pppoe_superseded_session_survives.patch): every session
+   Claim reports is evicted, also an older PPPoE session of the tuple *)
+Definition component_claim_any (self_proto : bytes) (r : registry) (k : key) (sid : bytes)
+  : registry * list bytes :=
+  let ow := mkOwner self_proto sid k in
+  let (r', res) := reg_step r (OClaim k ow) in
+  (r', match res with ROwner prev => [o_sid prev] | _ => [] end).
+Definition site_claim (any : bool) := if any then component_claim_any else component_claim.
+
 (* the call sites: `if c.exclusivity == nil || !sess.MixedAccess { return }`, then
    MakeTupleKey(sess.OuterVLAN, sess.InnerVLAN, sess.MAC) and the claim / release above.
    Events are (evicted session id, tuple named in the event). *)
-Definition caller_claim (self_proto : bytes) (mixed : bool) (r : registry) (svlan cvlan : N) (mac sid : bytes)
+Definition caller_claim_v (any : bool) (self_proto : bytes) (mixed : bool) (r : registry) (svlan cvlan : N) (mac sid : bytes)
   : registry * list (bytes * key) :=
   if mixed then
     let k := make_tuple_key svlan cvlan mac in
-    let (r', ev) := component_claim self_proto r k sid in
+    let (r', ev) := site_claim any self_proto r k sid in
     (r', map (fun s => (s, k)) ev)
   else (r, []).
+Definition caller_claim := caller_claim_v false.
 Definition caller_release (self_proto : bytes) (mixed : bool) (r : registry) (svlan cvlan : N) (mac sid : bytes)
   : registry :=
   if mixed then component_release self_proto r (make_tuple_key svlan cvlan mac) sid else r.
@@ -203,7 +213,14 @@ Definition caller_release (self_proto : bytes) (mixed : bool) (r : registry) (sv
    handleSubscriberTerminate/resolveTerminateTargetLocked/removeFromIndexes (component.go).
    The bus delivers every terminate event to BOTH components (events/local/bus.go), including the
    one that published it.  Sessions are Owner records (protocol, session id, tuple). *)
-Inductive variant := Defective | Repaired.
+(* which of the recorded defects of the eviction protocol are repaired *)
+Record variant := mkV {
+  v_keyhit : bool;      (* 94649ad: a terminate event hits the session on the tuple only if it names it *)
+  v_claim_all : bool;   (* every ipoe creation path sets MixedAccess (DISCOVER always did; REQUEST, SOLICIT) *)
+  v_evict_pp : bool     (* pppoe evicts the PPPoE session its own newer session displaced *)
+}.
+Definition Repaired : variant := mkV true true true.
+Definition Defective : variant := mkV false false false.   (* the code before 94649ad, historical *)
 
 Record world := mkW {
   w_reg : registry;
@@ -233,15 +250,14 @@ Fixpoint remove_pp (k : key) (sid : bytes) (l : list (key * bytes)) : list (key 
   | (k', s) :: r => if key_eqb k' k && bytes_eqb s sid then remove_pp k sid r else (k', s) :: remove_pp k sid r
   end.
 
-(* resolveTerminateTarget: by ev.Key first, then by ev.SessionID.  Repaired = /repo HEAD since
-   94649ad: the session on the tuple only if it is the one the event names.  Defective = the code
-   before 94649ad (whatever session sits on the tuple); kept only for the historical _refuted witness,
-   not used by the correspondence any more. *)
+(* resolveTerminateTarget: by ev.Key first, then by ev.SessionID.  v_keyhit = true (/repo since
+   94649ad): the session on the tuple only if it is the one the event names; false: whatever session
+   sits on the tuple (historical, only for the _refuted witness). *)
 Definition key_hit (v : variant) (sid : bytes) (found : option owner) : option owner :=
   match found with
   | Some s => match v with
-              | Defective => Some s
-              | Repaired => if bytes_eqb (o_sid s) sid then Some s else None
+              | mkV false _ _ => Some s
+              | mkV true _ _ => if bytes_eqb (o_sid s) sid then Some s else None
               end
   | None => None
   end.
@@ -282,22 +298,33 @@ Definition pppoe_terminate (v : variant) (w : world) (ev : bytes * key) : world 
 Definition deliver (v : variant) (w : world) (evs : list bytes) (k : key) : world :=
   fold_left (fun w sid => pppoe_terminate v (ipoe_terminate v w (sid, k)) (sid, k)) evs w.
 
-Inductive e2e_op := EDiscover (k : key) | EPadr (k : key).
+Inductive e2e_op :=
+| EDiscover (k : key)     (* handleDiscover, dhcpv4.go *)
+| ERequest (k : key)      (* handleRequest without a session: dhcpv4.go *)
+| ESolicit (k : key)      (* handleDHCPv6Solicit: dhcpv6.go (unified session mode: same table key) *)
+| EPadr (k : key).
+
+(* an ipoe creation path: LoadOrStore; a NEW session claims iff its MixedAccess flag was set *)
+Definition ipoe_create (v : variant) (claims : bool) (w : world) (k : key) : world :=
+  match m_get k (w_ipoe w) with
+  | Some _ => w                                   (* existing session: no claim *)
+  | None =>
+      let sid := ipoe_sid (w_next w) in
+      let w1 := mkW (w_reg w) (m_set k (mkOwner proto_ipoe sid k) (w_ipoe w)) (w_pp_key w) (w_pp_all w)
+                    (N.succ (w_next w)) in
+      if claims then
+        let (r', evs) := component_claim proto_ipoe (w_reg w) k sid in
+        deliver v (mkW r' (w_ipoe w1) (w_pp_key w1) (w_pp_all w1) (w_next w1)) evs k
+      else w1
+  end.
 
 Definition e2e_step (v : variant) (w : world) (o : e2e_op) : world :=
   match o with
-  | EDiscover k =>
-      match m_get k (w_ipoe w) with
-      | Some _ => w                                   (* existing session: no claim *)
-      | None =>
-          let sid := ipoe_sid (w_next w) in
-          let (r', evs) := component_claim proto_ipoe (w_reg w) k sid in
-          deliver v (mkW r' (m_set k (mkOwner proto_ipoe sid k) (w_ipoe w)) (w_pp_key w) (w_pp_all w)
-                         (N.succ (w_next w))) evs k
-      end
+  | EDiscover k => ipoe_create v true w k
+  | ERequest k | ESolicit k => ipoe_create v (v_claim_all v) w k
   | EPadr k =>
       let sid := pppoe_sid (w_next w) in
-      let (r', evs) := component_claim proto_pppoe (w_reg w) k sid in
+      let (r', evs) := site_claim (v_evict_pp v) proto_pppoe (w_reg w) k sid in
       deliver v (mkW r' (w_ipoe w) (m_set k (mkOwner proto_pppoe sid k) (w_pp_key w))
                      ((k, sid) :: w_pp_all w) (N.succ (w_next w))) evs k
   end.
@@ -310,15 +337,3 @@ Definition e2e_snapshot (w : world) (k : key) : nat * nat * option bytes :=
   (match m_get k (w_ipoe w) with Some _ => 1 | None => 0 end,
    count_pp k (w_pp_all w),
    match reg_get (w_reg w) k with Some o => Some (o_proto o) | None => None end).
-
-(* hypothesis of the end-to-end theorems: no PADR for a tuple while a PPPoE session for that tuple
-   is still live (several PPPoE sessions of one host are a PPPoE matter, not mixed access) *)
-Fixpoint no_repadr (v : variant) (w : world) (ops : list e2e_op) : bool :=
-  match ops with
-  | [] => true
-  | o :: rest =>
-      match o with
-      | EPadr k => Nat.eqb (count_pp k (w_pp_all w)) 0
-      | _ => true
-      end && no_repadr v (e2e_step v w o) rest
-  end.
